@@ -111,6 +111,19 @@ impl TokenStore {
     }
 }
 
+/// Verification hook: view of the store's state (no behaviour).
+#[cfg(feature = "verif")]
+impl TokenStore {
+    /// (current secret, previous secret, time since the last rotation).
+    pub fn verif_snapshot(&self) -> (u32, u32, Duration) {
+        (
+            self.curr_secret,
+            self.last_secret,
+            Instant::now() - self.last_refresh,
+        )
+    }
+}
+
 /// Since we are lazily generating tokens, more than one interval could have passed since
 /// we last generated a token in which case our last secret AND current secret could be
 /// invalid.
